@@ -1,7 +1,8 @@
 /-!
 # Core/Ops — models of pyanalyze's "operate on known objects" kernels (property C19)
 
-Three models, each following the Python branch by branch (defects included):
+Three models, each following the Python branch by branch (defects included; the off-by-two of
+`index_from_back`, implementation.py:447, was repaired in /repo by 07b1f6d and the model follows the repaired code):
 
 * `getitem` — `implementation.py:408 _sequence_common_getitem_impl`, the branch
   `isinstance(key, KnownValue) and isinstance(key.val, int) and isinstance(self_value, SequenceValue)`
@@ -20,8 +21,7 @@ the in-place operators, `in`, `%` on str/bytes (format strings, property C17), u
 
 Core-only, no imports (the driver must start fast).
 -/
-namespace Pya
-namespace Ops
+namespace Pya.C19
 
 /-! ## 1. literal subscript on a `SequenceValue` -/
 
@@ -77,29 +77,7 @@ def getitem {α : Type} (typ : SeqTyp) (ms : List (Bool × α)) (key : Int) : Ge
       | some m => .member m
       | none => .fallback
     else
-      -- :447 `index_from_back = -key.val + 1`   (sic: the defect; `- 1` would be right)
-      let indexFromBack : Int := -key + 1
-      match scan indexFromBack.toNat 0 ms.reverse with
-      | some m => .member m
-      | none => .fallback
-
-/-- The same function with the one-token repair `index_from_back = -key.val - 1`
-(used only to state what the fix achieves; not what the pinned tree does). -/
-def getitemFixed {α : Type} (typ : SeqTyp) (ms : List (Bool × α)) (key : Int) : GetRes α :=
-  match memberSequence ms with
-  | some members =>
-    if -(members.length : Int) ≤ key ∧ key < (members.length : Int) then
-      match pyIndex members key with
-      | some m => .member m
-      | none => .error
-    else if typ = .tuple then .error
-    else .fallback
-  | none =>
-    if key ≥ 0 then
-      match scan key.toNat 0 ms with
-      | some m => .member m
-      | none => .fallback
-    else
+      -- :447 `index_from_back = -key.val - 1`  (repaired in /repo 07b1f6d; it was `+ 1`)
       let indexFromBack : Int := -key - 1
       match scan indexFromBack.toNat 0 ms.reverse with
       | some m => .member m
@@ -179,5 +157,4 @@ structure AttrMiss where
 def attrFallback (m : AttrMiss) : Bool :=
   !(!m.onlyKnown && (m.hasGetattr || m.ignoredRef))
 
-end Ops
-end Pya
+end Pya.C19
